@@ -179,7 +179,8 @@ fn eval_line_inner(l: &str) -> Option<Eval> {
                     fail(format!("set-accepts-invalid:{why}"), "Document::set_field accepted a value that violates its declared type", format!("err ({why})"), format!("ok {}", show_value(&stored)));
                 } else if let Err(why) = oracle::field_conforms(&ft, &stored, true) {
                     fail(
-                        format!("stored-not-declared-variant:{why}"),
+                        // one root cause has its own stable key: `(FieldType::Json, _) => Ok(())`
+                        if why.ends_with("@Json") { "json-field-holds-non-json".to_string() } else { format!("stored-not-declared-variant:{why}") },
                         "Document::set_field stored a value that is not in the schema's declared variant",
                         "the declared variant".into(),
                         show_value(&stored),
@@ -397,7 +398,7 @@ fn gen_case(seed: u64, i: u64) -> Vec<String> {
 
 // ----------------------------------------------------------------------------------------- main
 
-fn run_case(name: &str, ops: &[String], model: &mut Option<ModelProc>, rep: &mut Report) {
+fn run_case(name: &str, ops: &[String], model: &mut Option<ModelProc>, rep: &mut Report, reported: &mut std::collections::BTreeSet<String>) {
     for l in ops {
         let (ev, model_out) = check_line(l, model);
         if model_out.is_some() {
@@ -414,6 +415,11 @@ fn run_case(name: &str, ops: &[String], model: &mut Option<ModelProc>, rep: &mut
         let mut seen = std::collections::BTreeSet::new();
         for f in &ev.findings {
             if !seen.insert((f.oracle, f.key.clone())) {
+                continue;
+            }
+            // one minimised replay per failing call shape; further hits are only counted
+            rep.hit(&format!("{}:{}", if f.oracle { "oracle" } else { "model" }, f.key));
+            if !reported.insert(format!("{}{}", f.oracle, f.key)) {
                 continue;
             }
             let small = shrink_line(l, f, model);
@@ -441,23 +447,24 @@ fn main() {
     );
     rep.max_samples = 8;
     let mut model = ModelProc::from_args(&args);
+    let mut reported = std::collections::BTreeSet::new();
 
     if let Some(p) = &args.replay {
         let ops = read_replay(p);
-        run_case("replay", &ops, &mut model, &mut rep);
+        run_case("replay", &ops, &mut model, &mut rep, &mut reported);
         rep.write(&args);
         return;
     }
     if let Some(dir) = &args.corpus {
         for (name, ops) in read_corpus(dir) {
             rep.hit("corpus-file");
-            run_case(&name, &ops, &mut model, &mut rep);
+            run_case(&name, &ops, &mut model, &mut rep, &mut reported);
         }
     }
     let n = args.budget(6_000, 400_000);
     for i in 0..n {
         let ops = gen_case(args.seed, i);
-        run_case(&format!("seed{}-case{}", args.seed, i), &ops, &mut model, &mut rep);
+        run_case(&format!("seed{}-case{}", args.seed, i), &ops, &mut model, &mut rep, &mut reported);
         if rep.oracle_failures.len() >= 20 && rep.disagreements.len() >= 20 {
             break;
         }
